@@ -66,6 +66,8 @@ def run_sessions(docs, stimuli, wd, modes=("preload",), threads=12, extra=None):
         for mode in modes:
             jid += 1
             job = {"id": jid, "xml": xmls[d], "events": list(evs), "mode": mode}
+            if docs[d - 1].dm == "ecmascript":
+                job["options"] = {"ecma:strict": ""}
             if extra:
                 job.update(extra)
             jobs.append(job)
@@ -109,13 +111,17 @@ def validate_traces(module, traces, wd, workers=8, timeout=1500):
     res = vlib.run_tlc(module, module + ".cfg", wd, env={"DOCS": "docs.json", "TRACES": "traces.ndjson"},
                        workers=workers, timeout=timeout)
     verdict = {}
+    expected = {}
     for t in vlib.tlc_tuples(res["text"], "ACCEPT"):
         v = vlib.parse_tla_value(t)
         verdict[v[1]] = ("ok", 0)
     for t in vlib.tlc_tuples(res["text"], "REJECT"):
         v = vlib.parse_tla_value(t)
         verdict[v[1]] = (v[3], v[2])
+        if len(v) > 4:
+            expected[v[1]] = v[4]
     res["text"] = ""
+    res["expected"] = expected
     if len(verdict) != len(traces):
         raise ToolError("%s judged %d of %d traces" % (module, len(verdict), len(traces)))
     return res, verdict
@@ -206,8 +212,10 @@ def core_check(prop, tier, seed, docs, owner_classes, module="TraceCore", max_ev
             doc = docs[run["d"] - 1]
             key = keyfn(cls, doc, run, pos) if keyfn else \
                 "%s:%s:%s" % (cls, doc.family, doc.name if doc.family == "shape" else "gen")
+            ro = replay_obj(docs, run, cls, pos)
+            ro["expected_by_model"] = tv.get("expected", {}).get(ti)
             V.report(key, "%s: trace rejected at step %d (%s), document %s, events %s" % (
-                prop, pos, cls, doc.name, run["events"]), replay_obj(docs, run, cls, pos))
+                prop, pos, cls, doc.name, run["events"]), ro)
         else:
             unjudged[cls] = unjudged.get(cls, 0) + 1
     nondet = 0
@@ -378,6 +386,418 @@ def c19(tier, seed):
                       min_counts={"internal_events": 100, "microsteps": 1000}, nontrivial_key="microsteps")
 
 
+@check("C08")
+def c08(tier, seed):
+    rng = random.Random(seed)
+    docs = docgen.c08_docs(rng, 12 if tier == "quick" else 150)
+    docs += docgen.c08_docs(rng, 4 if tier == "quick" else 40, dm="ecmascript", max_variants=3)
+    docs += docgen.null_docs()
+
+    def key(cls, doc, run, pos):
+        st = run["steps"][pos - 1]
+        return "%s:%s:%s" % (cls, doc.dm, "err" if "-err-" in doc.name else "plain")
+
+    return core_check("C08", tier, seed, docs, {"order", "ienq", "enabled"}, max_ev=3 if tier == "quick" else 4, keyfn=key,
+                      extra_note="random nested blocks (if/elseif/else, foreach, assign, raise, send #_internal, log, script) in "
+                                 "onentry/onexit/transition/initial/history-default bodies, an ERR injected at each expression position",
+                      min_counts={"microsteps": 500, "internal_events": 100}, nontrivial_key="internal_events")
+
+
+# ---------------------------------------------------------------------------------------------
+# C10 / C11: Expr.tla as generator + oracle, the engine evaluated in `vh expr`
+# ---------------------------------------------------------------------------------------------
+OPERANDS = ["0", "1", "2", "3", "7", "10", "-1", "-4", "2.5", "0.5", "1.0", "-1.5", "'a'", "'b'", "'ab'", "''", "true",
+            "false", "null", "[1,2]", "[]", "['a']", "{'a':1}", "{'b':2}", "{'a':3}", "9223372036854775807",
+            "-9223372036854775808", "nosuchvar"]
+ALL_OPS = ["*", "/", ":", "%", "+", "-", "<", "<=", ">", ">=", "==", "!=", "&", "|"]
+
+
+def expr_family(wd, name, k, operands, ops, notset=(0,), timeout=900):
+    idx = sorted(OPERANDS.index(o) + 1 for o in operands)
+    cfg = "SPECIFICATION Spec\nCONSTANT K = %d\nCONSTANT OperandIdx = {%s}\nCONSTANT OpSet = {%s}\n" \
+          "CONSTANT NotSet = {%s}\nINVARIANT Emit\nCHECK_DEADLOCK FALSE\n" % (
+              k, ",".join(map(str, idx)), ",".join('"%s"' % o for o in ops), ",".join(map(str, notset)))
+    open(os.path.join(vlib.SPEC, "Expr.%s.cfg" % name), "w").write(cfg)
+    try:
+        res = vlib.run_tlc("Expr", "Expr.%s.cfg" % name, wd, timeout=timeout)
+    finally:
+        os.remove(os.path.join(vlib.SPEC, "Expr.%s.cfg" % name))
+    out = []
+    for t in vlib.tlc_tuples(res["text"], "EXPR"):
+        v = vlib.parse_tla_value(t)
+        out.append((v[1], v[2]))
+    res["text"] = ""
+    return res, out
+
+
+def enc_parse(s):
+    """parses the compact value encoding into a comparable Python value"""
+    pos = [0]
+
+    def val():
+        c = s[pos[0]]
+        if c == "[":
+            pos[0] += 1
+            out = []
+            while s[pos[0]] != "]":
+                out.append(val())
+                if s[pos[0]] == ",":
+                    pos[0] += 1
+            pos[0] += 1
+            return ("arr", out)
+        if c == "{":
+            pos[0] += 1
+            out = []
+            while s[pos[0]] != "}":
+                j = s.index(":", pos[0])
+                k = s[pos[0]:j]
+                pos[0] = j + 1
+                out.append((k, val()))
+                if s[pos[0]] == ",":
+                    pos[0] += 1
+            pos[0] += 1
+            return ("map", sorted(out))
+        if c == "s":
+            j = pos[0] + 2
+            k = j
+            # strings of the alphabet contain no quote
+            while s[k] != "'":
+                k += 1
+            pos[0] = k + 1
+            return ("str", s[j:k])
+        j = pos[0] + 1
+        while j < len(s) and s[j] not in ",]}":
+            j += 1
+        tok = s[pos[0]:j]
+        pos[0] = j
+        if tok[0] == "i":
+            return ("int", int(tok[1:]))
+        if tok[0] == "d":
+            if "/" in tok:
+                a, b = tok[1:].split("/")
+                return ("dbl", int(a) / int(b))
+            return ("dbl", float(tok[1:]))
+        if tok[0] == "b":
+            return ("bool", tok[1:] == "1")
+        return (tok, None)
+
+    return val()
+
+
+def enc_equal(a, b):
+    if a[0] != b[0]:
+        return False
+    if a[0] == "dbl":
+        x, y = a[1], b[1]
+        return x == y or abs(x - y) <= 1e-12 * max(abs(x), abs(y), 1e-300)
+    if a[0] == "arr":
+        return len(a[1]) == len(b[1]) and all(enc_equal(x, y) for x, y in zip(a[1], b[1]))
+    if a[0] == "map":
+        return len(a[1]) == len(b[1]) and all(k1 == k2 and enc_equal(x, y) for (k1, x), (k2, y) in zip(a[1], b[1]))
+    return a[1] == b[1]
+
+
+def run_expr_jobs(jobs, wd, name="expr", timeout=1800, chunk=20000):
+    """runs `vh expr` on the jobs in sacrificial processes; a process that dies is bisected"""
+    import subprocess
+    results = {}
+    died = []
+
+    def run(batch, depth=0):
+        jf = os.path.join(wd, "%s.%d.ndjson" % (name, len(results) + len(died) + depth))
+        of = jf + ".out"
+        with open(jf, "w") as f:
+            for j in batch:
+                f.write(json.dumps(j) + "\n")
+        def limit():
+            import resource
+            resource.setrlimit(resource.RLIMIT_AS, (12 << 30, 12 << 30))
+        p = subprocess.run(["timeout", str(timeout), vlib.VH, "expr", jf, of], stdout=subprocess.PIPE,
+                           stderr=subprocess.STDOUT, text=True, preexec_fn=limit)
+        got = {}
+        if os.path.exists(of):
+            for line in open(of):
+                try:
+                    r = json.loads(line)
+                    got[r["id"]] = r
+                except Exception:
+                    pass
+        results.update(got)
+        if p.returncode != 0:
+            rest = [j for j in batch if j["id"] not in got]
+            if rest and p.returncode == 3:
+                run(rest, depth + 1)       # the worker ended itself after reporting a hang
+            elif rest:
+                # the first unanswered job killed the process
+                died.append((rest[0], p.returncode, p.stdout[-300:]))
+                if len(rest) > 1:
+                    run(rest[1:], depth + 1)
+        os.remove(jf)
+        if os.path.exists(of):
+            os.remove(of)
+
+    for i in range(0, len(jobs), chunk):
+        run(jobs[i:i + chunk])
+    return results, died
+
+
+def variants(text, rng):
+    toks = text.split(" ")
+    out = {"canon": text}
+    out["wide"] = "  ".join(toks).replace("  +  ", " \n+\t ")
+    out["tight"] = "".join(toks)
+    wrapped = []
+    for t in toks:
+        if t in ALL_OPS or t in ("(", ")", "!"):
+            wrapped.append(t)
+        else:
+            wrapped.append("(" + t + ")")
+    out["parens"] = " ".join(wrapped)
+    return out
+
+
+@check("C10")
+def c10(tier, seed):
+    t0 = time.time()
+    rng = random.Random(seed)
+    wd = vlib.workdir("C10")
+    V = vlib.Verdicts("C10")
+    vlib.build_harness()
+    fams = [("k1", 1, OPERANDS, ALL_OPS, (0, 1, 2))]
+    if tier == "quick":
+        fams.append(("k2num", 2, ["1", "2", "3", "7", "10", "-4", "2.5"], ["*", "/", "%", "+", "-", "<", "==", ":"], (0,)))
+        fams.append(("k2mix", 2, ["1", "2.5", "'a'", "'ab'", "true", "[1,2]", "{'a':1}", "{'a':3}"], ["+", "==", "!=", "<", "&", "|", "*"], (0, 1)))
+        var_frac = 0.15
+    else:
+        fams.append(("k2num", 2, ["0", "1", "2", "3", "7", "10", "-1", "-4", "2.5", "0.5", "-1.5"], ALL_OPS, (0,)))
+        fams.append(("k2mix", 2, ["1", "2.5", "'a'", "'ab'", "''", "true", "false", "null", "[1,2]", "[]", "{'a':1}", "{'b':2}", "{'a':3}", "nosuchvar"],
+                     ["+", "-", "==", "!=", "<", ">=", "&", "|", "*"], (0, 1, 2, 3)))
+        fams.append(("k3", 3, ["2", "3", "7", "10", "2.5"], ["*", "/", "%", "+", "-", "<", "=="], (0,)))
+        fams.append(("k2big", 2, ["9223372036854775807", "-9223372036854775808", "1", "2", "0", "-1"], ["+", "-", "*", "<", "=="], (0,)))
+        var_frac = 1.0
+    states = trans = 0
+    exprs = []
+    for (name, k, operands, ops, notset) in fams:
+        res, out = expr_family(wd, name, k, operands, ops, notset)
+        states += res["distinct"]
+        trans += res["states"]
+        log("[C10] Expr family %s: %d expressions (%.1fs)" % (name, len(out), res["wall"]))
+        exprs += [(name, t, e) for (t, e) in out]
+    judged = [(f, t, e) for (f, t, e) in exprs if e != "U"]
+    jobs = []
+    meta = {}
+    for (f, t, e) in judged:
+        vs = variants(t, rng) if rng.random() < var_frac else {"canon": t}
+        for vn, vt in vs.items():
+            jid = len(jobs) + 1
+            jobs.append({"id": jid, "text": vt})
+            meta[jid] = (f, t, e, vn)
+    results, died = run_expr_jobs(jobs, wd)
+    log("[C10] evaluated %d texts of %d judged expressions (%d undefined by the documentation skipped)" % (
+        len(jobs), len(judged), len(exprs) - len(judged)))
+    ok = 0
+    nontrivial = set()
+    for jid, (f, t, e, vn) in meta.items():
+        r = results.get(jid)
+        toks = t.split(" ")
+        ops = [x for x in toks if x in ALL_OPS]
+        if r is None or r.get("panic") or r.get("hang"):
+            # termination/panics are C11's business; here the value simply was not obtained
+            V.report("novalue:%s" % ("panic" if r and r.get("panic") else "hang" if r else "died"),
+                     "no value for %r (%s)" % (t, vn), {"text": t, "variant": vn, "result": r})
+            continue
+        exp = enc_parse(e)
+        bad = None
+        for path in ("a", "b1", "b2"):
+            got = r[path]
+            if path != "a" and exp[0] in ("arr", "map"):
+                continue       # the datamodel refuses to return collections; only the parser path is compared
+            try:
+                g = enc_parse(got)
+            except Exception:
+                g = ("?", got)
+            if not enc_equal(exp, g):
+                bad = (path, got)
+                break
+        if bad is None:
+            ok += 1
+            if len(ops) >= 2:
+                nontrivial.add(t)
+            continue
+        glued = any(a == "-" and b[:1] in "0123456789." for a, b in zip(toks, toks[1:])) and \
+            any(toks[i] == "-" and i > 0 and toks[i - 1] not in ALL_OPS + ["(", "!"] for i in range(len(toks)))
+        if vn == "tight" and glued:
+            key = "lexer:binary-minus-glued-to-number"
+        elif vn != "canon":
+            key = "variant:%s" % vn
+        elif "(" not in toks and len(ops) >= 2 and len({_prio(o) for o in ops}) == 1:
+            key = "grouping:equal-precedence"
+        elif len(ops) >= 2 and "(" not in toks:
+            key = "precedence"
+        elif bad[0] != "a":
+            key = "path:%s" % bad[0]
+        else:
+            key = "value:%s" % ",".join(sorted(set(ops)))
+        V.report(key, "expression %r (%s): expected %s, engine path %s gave %s" % (t, vn, e, bad[0], bad[1]),
+                 {"text": t, "variant": vn, "expected": e, "path": bad[0], "got": bad[1], "all": r})
+    if ok == 0:
+        raise ToolError("C10: nothing agreed")
+    rc = V.finish()
+    cov = {"states": states, "transitions": trans, "traces_validated_against_impl": ok,
+           "samples": [{"text": t, "expected": e} for (f, t, e) in judged[:: max(1, len(judged) // 5)][:5]],
+           "evaluations": len(jobs), "distinct_nontrivial": len(nontrivial),
+           "rule": "TLC enumerates every expression operand (op operand)^K with one optional parenthesised sub-range and "
+                   "optional '!' over the operand/operator sets of each family and computes the value with Expr.tla; the "
+                   "engine evaluates the text (parser directly, datamodel compile, datamodel cache hit; whitespace and "
+                   "redundant-parenthesis variants); non-trivial = distinct agreeing expressions with >= 2 operators",
+           "families": [{"name": n, "K": k, "operands": o, "ops": p} for (n, k, o, p, _) in fams],
+           "undefined_skipped": len(exprs) - len(judged), "died": len(died), "exhaustive": True}
+    vlib.write_evidence("C10", tier, seed, "model_checking", cov, time.time() - t0, len(V.violations),
+                        ["Expr.tla is the documented semantics (README operator table, parser precedence table, property "
+                         "statement); cases it leaves undefined are not judged", "Doubles are compared to the exact rational "
+                         "within 1e-12 relative"])
+    return rc
+
+
+FUZZ_FULL = ["1", "0", "-1", "2.5", "-9223372036854775808", "n", "arr", "m", "ro", "zz", "'s'", "true", "null",
+             "+", "-", "*", "/", "%", "==", "<", "=", "?=", "!", "&", "|", "(", ")", "[", "]", "{", "}", ".", ",", ":",
+             ";", "'open", "\u00e9t\u00e9", "'\\u00e9'", "abs", "length", "In", "\\", "1e", "1e999", "@"]
+FUZZ_SMALL = ["1", "0", "n", "arr", "m", "zz", "-9223372036854775808", "%", "/", "-", "=", "?=", "(", ")", "[", "]",
+              ".", ",", "abs", "!"]
+
+
+def fuzz_family(wd, name, L, alphabet, timeout=900):
+    open(os.path.join(wd, "alpha.json"), "w").write(json.dumps(alphabet))
+    cfg = "SPECIFICATION Spec\nCONSTANT L = %d\nINVARIANT Emit\nCHECK_DEADLOCK FALSE\n" % L
+    open(os.path.join(vlib.SPEC, "ExprFuzz.%s.cfg" % name), "w").write(cfg)
+    try:
+        res = vlib.run_tlc("ExprFuzz", "ExprFuzz.%s.cfg" % name, wd, env={"ALPHA": "alpha.json"}, timeout=timeout)
+    finally:
+        os.remove(os.path.join(vlib.SPEC, "ExprFuzz.%s.cfg" % name))
+    out = []
+    for t in vlib.tlc_tuples(res["text"], "FUZZ"):
+        out.append(vlib.parse_tla_value(t)[1])
+    res["text"] = ""
+    return res, out
+
+
+def structured_inputs(tier):
+    ns = [10, 100, 1000, 10000] + ([100000] if tier != "quick" else [])
+    out = []
+    for n in ns:
+        out += ["(" * n + "1" + ")" * n, "[" * n + "1" + "]" * n, "{'a':" * n + "1" + "}" * n, "!" * n + "true",
+                "+".join(["1"] * n), " - ".join(["1"] * n), "1" + " * 2 % 3" * (n // 2), "arr" + "[0]" * n,
+                "m" + ".c" * n, ";".join(["n = n + 1"] * n), "abs(" * n + "1" + ")" * n, "(" * n, ")" * n,
+                "'" + "a" * n + "'", "-" * n + "1", "1" + "0" * n, "n" + " ?= n" * n, "[" + ",".join(["1"] * n) + "]"]
+    out += ["n = n", "n ?= n", "arr[arr]", "arr = arr", "m.b = m", "m = m.c", "arr[0] = arr", "m[m]", "arr + arr",
+            "abs(-9223372036854775807 - 1)", "abs(-9223372036854775808)", "5 % 0", "7 % 4 % 2", "-9223372036854775808 % -1",
+            "-9223372036854775808 / -1", "-9223372036854775808 * -1", "0 - -9223372036854775808", "1 / 0", "0 / 0", "0.0 % 0",
+            "length(n)", "indexOf('a')", "toString(toString)", "m.c[5]", "arr[-1]", "arr[1e30]", "arr[0.5]", "{1:2}[1]",
+            "ro = 1", "ro ?= 1", "In('x')", "'\\u12'", "'\\ud800'", "\u00e9 ?= 1; \u00e9 + 1"]
+    return out
+
+
+@check("C11")
+def c11(tier, seed):
+    t0 = time.time()
+    rng = random.Random(seed)
+    wd = vlib.workdir("C11")
+    V = vlib.Verdicts("C11")
+    vlib.build_harness()
+    fams = [("full", 2 if tier == "quick" else 3, FUZZ_FULL), ("small", 3 if tier == "quick" else 4, FUZZ_SMALL)]
+    states = trans = 0
+    texts = []
+    for name, L, alpha in fams:
+        res, out = fuzz_family(wd, name, L, alpha)
+        states += res["distinct"]
+        trans += res["states"]
+        log("[C11] token sequences %s L=%d: %d texts (%.1fs)" % (name, L, len(out), res["wall"]))
+        texts += out
+    n_enum = len(texts)
+    texts += structured_inputs(tier)
+    # mutated texts derived from the model sequences: drop spaces, duplicate a token, random unicode insertion
+    base = rng.sample(texts[:n_enum], min(n_enum, 3000 if tier == "quick" else 60000))
+    for t in base:
+        toks = t.split(" ")
+        r = rng.random()
+        if r < 0.4:
+            texts.append("".join(toks))
+        elif r < 0.7:
+            i = rng.randrange(len(toks))
+            texts.append(" ".join(toks[:i] + [toks[i]] * rng.randint(2, 30) + toks[i + 1:]))
+        else:
+            i = rng.randrange(len(t) + 1)
+            texts.append(t[:i] + chr(rng.choice([0x0, 0x7f, 0xe9, 0x3b1, 0x65e5, 0x1f600, 0x202e, 0xfeff])) + t[i:])
+    texts = list(dict.fromkeys(texts))
+    jobs = [{"id": i + 1, "text": t, "store": True, "timeout_ms": 1500} for i, t in enumerate(texts)]
+    results, died = run_expr_jobs(jobs, wd, name="fuzz", chunk=5000)
+    died_ids = {j["id"]: (rc, msg) for (j, rc, msg) in died}
+    recs = []
+    for j in jobs:
+        r = results.get(j["id"])
+        if r is None:
+            outcome, probe = ("died", False) if j["id"] in died_ids else ("missing", False)
+        elif r.get("hang"):
+            outcome, probe = "hang", False
+        elif r.get("panic") is not None:
+            outcome, probe = "panic", False
+        else:
+            outcome = "error" if r["a"] == "E" and r["b1"] == "E" else "value"
+            probe = bool(r.get("probe"))
+        recs.append({"id": j["id"], "outcome": outcome, "probe": probe})
+    if any(r["outcome"] == "missing" for r in recs):
+        raise ToolError("C11: results missing without a dead worker")
+    with open(os.path.join(wd, "traces.ndjson"), "w") as f:
+        for r in recs:
+            f.write(json.dumps(r) + "\n")
+    tv = vlib.run_tlc("TraceC11", "TraceC11.cfg", wd, env={"TRACES": "traces.ndjson"}, timeout=900)
+    rejected = {}
+    for t in vlib.tlc_tuples(tv["text"], "REJECT"):
+        v = vlib.parse_tla_value(t)
+        rejected[v[1]] = (v[2], v[3])
+    tv["text"] = ""
+    for jid, (outcome, probe) in sorted(rejected.items()):
+        text = texts[jid - 1]
+        r = results.get(jid) or {}
+        msg = (r.get("panic") or "")
+        key = "%s:%s" % (outcome if outcome in ("panic", "hang", "died") else "poisoned", c11_class(text, msg))
+        V.report(key, "%s on %r %s" % (outcome, text[:120], msg[:200]), {"text": text if len(text) < 5000 else text[:200] + "...(%d chars)" % len(text),
+                                                                       "outcome": outcome, "probe": probe, "detail": r})
+    ok = len(recs) - len(rejected)
+    rc = V.finish()
+    cov = {"states": states + tv["distinct"], "transitions": trans + tv["states"], "traces_validated_against_impl": ok,
+           "samples": [{"text": texts[i][:80], "outcome": recs[i]["outcome"]} for i in range(0, len(texts), max(1, len(texts) // 6))][:6],
+           "evaluations": len(texts), "distinct_nontrivial": sum(1 for r in recs if r["outcome"] == "value"),
+           "rule": "all token sequences up to length L over the adversarial alphabets (enumerated by TLC from ExprFuzz.tla) "
+                   "plus structured long inputs (n-fold nesting/chains, n up to 10^4 quick / 10^5 thorough) plus seeded mutations "
+                   "(glued tokens, repeated tokens, inserted Unicode); each evaluated in a 2 MB-stack thread of a sacrificial "
+                   "process under a watchdog, followed by a probe evaluation on the same store; outcomes validated by "
+                   "TraceC11.tla; non-trivial = texts that evaluate to a value",
+           "enumerated": n_enum, "died": len(died), "exhaustive": False}
+    vlib.write_evidence("C11", tier, seed, "model_checking", cov, time.time() - t0, len(V.violations),
+                        ["arbitrary byte strings outside the token/structured/mutated families are not covered"])
+    return rc
+
+
+def c11_class(text, msg):
+    import re as _re
+    if "remainder" in msg or "divisor of zero" in msg:
+        return "modulus-by-zero"
+    if "overflow" in msg:
+        return "integer-overflow:" + ("abs" if "abs" in text else "%" if "%" in text else "arith")
+    if len(text) > 2000:
+        return "long-input:" + _re.sub(r"[A-Za-z0-9' ]", "", text[:6])[:3]
+    if _re.search(r"(\b\w+\b)(\[\w*\])?\s*\??=\s*\1\b", text):
+        return "self-assignment"
+    if _re.search(r"(\b\w+\b)\s*\[\s*\1\s*\]", text):
+        return "self-index"
+    return "other:" + (msg.split("@")[-1].strip() if msg else text[:30])
+
+
+def _prio(op):
+    return 5 if op in ("&", "*", "/", ":", "%") else 6 if op in ("|", "+", "-") else 9 if op in ("<", "<=", ">", ">=") else 10
+
+
 # ---------------------------------------------------------------------------------------------
 def main():
     ap = argparse.ArgumentParser()
@@ -398,7 +818,11 @@ def main():
         log("unknown check", a.what)
         return 2
     try:
-        return f(a.tier, seed)
+        rc = f(a.tier, seed)
+        if not os.environ.get("VERIF_KEEP"):
+            import shutil
+            shutil.rmtree(os.path.join(vlib.WORK, "%s-%d" % (a.what, os.getpid())), ignore_errors=True)
+        return rc
     except ToolError as e:
         log("TOOL ERROR: %s" % e)
         return 2
